@@ -124,6 +124,32 @@ Proof.
   cbn [flat_map map]. rewrite lex_render_line_ws, IH, (to_stream_cons T). reflexivity.
 Qed.
 
+(* tab / VT / FF NEXT TO A BLANK inside a line change nothing: after the blank (in any state of the pass), and before it when
+   the text they follow is an integer or number text (int() / float() ignore them; a WORD is compared as it stands) *)
+Lemma lex_ows_skip st p k (r : list atom) : lex_aux st p (repeat AOws k ++ r) = lex_aux st p r.
+Proof. induction k as [|k IH]; cbn; auto. Qed.
+Lemma after_ows_blank k (r : list atom) : after_ows T (repeat AOws k ++ ABlank :: r) = false.
+Proof. induction k as [|k IH]; cbn; auto. Qed.
+Theorem lex_ows_next_to_blank st p (t : token) k1 k2 (r : list atom) : is_word T t = false ->
+  lex_aux st p (ATok t :: repeat AOws k1 ++ ABlank :: repeat AOws k2 ++ r) = lex_aux st p (ATok t :: ABlank :: r).
+Proof.
+  intros Hw. cbn [C16Text.lex_aux].
+  assert (M : marked T t (repeat AOws k1 ++ ABlank :: repeat AOws k2 ++ r) = false).
+  { destruct k1 as [|k1]; [reflexivity|]. cbn [repeat app marked]. rewrite Hw. apply after_ows_blank. }
+  rewrite M. cbn [marked]. rewrite lex_ows_skip. cbn [C16Text.lex_aux]. now rewrite lex_ows_skip.
+Qed.
+(* ... whereas JOINING two texts (no blank in between) they make ONE piece, unreadable as an item: the gap marker stands
+   before each of its texts (np.fromfile skips the markers and finds the texts one by one) *)
+Theorem lex_ows_glue (t u : token) k (r : list atom) :
+  lex_aux false 0 (ATok t :: repeat AOws (S k) ++ ATok u :: r)
+  = gap T :: Some t :: gap T :: Some u :: lex_aux true 0 r.
+Proof.
+  cbn [C16Text.lex_aux repeat app marked].
+  assert (A : forall k, after_ows T (repeat AOws k ++ ATok u :: r) = true) by (intros j; induction j; cbn; auto).
+  assert (H : forall k, has_tok T (repeat AOws k ++ ATok u :: r) = true) by (intros j; induction j; cbn; auto).
+  rewrite A, H. destruct (is_word T t); cbn [app]; rewrite lex_ows_skip; cbn [C16Text.lex_aux app]; reflexivity.
+Qed.
+
 (* import_data on the characters = the line-level import on the lines, whatever the padding and the line ends *)
 Theorem import_text_render b (f : list (line * style)) :
   import_text D T d0 parse ofZ b (render T f) = import_lines D T d0 parse ofZ b (map fst f).
